@@ -28,5 +28,27 @@ def run(chk):
     items = eg.collect(chk, ["outcomes"], allow_cancel=True, timeout_advance=True, p_cancel=0.05, drain=False)
     # steps racing with the StopEvent: two bodies resumed in the same loop iteration (batch releases)
     items += eg.collect(chk, ["racing"], batch=True, drain=False, paths_q=40, walks_q=10)
+    # a second stream consumer against every way a run ends (fixed schedules: found by the thorough tier's walks, /repo fix
+    # 287ea57 -- the run's task completes later than the terminal event is consumed)
+    from harness.drivers import engine as en
+    from harness.programs import scenarios as sc
+    progs = {l: (p, e) for (l, p, e) in sc.family("outcomes", quick=False)}
+    ok_prog, _ = progs["pipeline ok, second consumer"]
+    fail_prog = sc.pipeline(fail_until=99, timeout=50)
+    fail_prog["second_consumer"] = True
+    fixed = [("pipeline ok, second consumer", ok_prog, [["consume2"], ["release", "a", "s0", 0, 0], ["advance", 50000, "timeout"]]),
+             ("pipeline ok, second consumer", ok_prog, [["release", "a", "s0", 0, 0], ["consume2"], ["advance", 50000, "timeout"]]),
+             ("pipeline ok, second consumer", ok_prog, [["consume2"], ["release", "a", "s0", 0, 0], ["cancel"]]),
+             ("pipeline ok, second consumer", ok_prog, [["consume2"], ["release", "a", "s0", 0, 0], ["release", "b", "s0>a", 0, 0]]),
+             ("pipeline fail, second consumer", fail_prog, [["consume2"], ["release", "a", "s0", 0, 0], ["release", "b", "s0>a", 0, 0]])]
+    for (label, prog, sched) in fixed:
+        s_ = en.EngineSystem(prog)
+        try:
+            s_.start("s0")
+            for c in sched:
+                s_.apply(list(c))
+            items.append((label, prog, [], list(s_.trace), sched))
+        finally:
+            s_.close()
     eg.standard_run(chk, "C04", None, {"pub", "stream", "stream_end", "outcome", "quiet"}, key_of=key_of,
                     nontrivial=nontrivial, items=items)
